@@ -15,13 +15,13 @@ def penv(bytecode):
     return env
 
 
-def run_proc(d, steps, bytecode=False, mode='history', crash_at=None, crash_bytes=None, tag='p'):
+def run_proc(d, steps, bytecode=False, mode='history', crash_at=None, crash_bytes=None, tag='p', fixed_pid=None):
     """one process: returns (exit code, out dict or None)"""
     inp = os.path.join(d, f'in_{tag}.json')
     outp = os.path.join(d, f'out_{tag}.json')
     if os.path.exists(outp):
         os.remove(outp)
-    json.dump(dict(dir=d, mode=mode, steps=steps, crash_at=crash_at, crash_bytes=crash_bytes, variants=steps if mode == 'cookies' else None), open(inp, 'w'))
+    json.dump(dict(dir=d, mode=mode, steps=steps, crash_at=crash_at, crash_bytes=crash_bytes, variants=steps if mode == 'cookies' else None, fixed_pid=fixed_pid), open(inp, 'w'))
     p = subprocess.run(['timeout', '120', PY, DRIVER, inp, outp], env=penv(bytecode), cwd=d, stdout=subprocess.PIPE, stderr=subprocess.STDOUT, text=True)
     out = json.load(open(outp)) if os.path.exists(outp) else None
     return p.returncode, out, p.stdout[-600:]
